@@ -39,6 +39,6 @@ def jobs(tier):
             else: J.append(doio_job(nm, op, vec, 3, 3, 2, 2, 3000, mem_gb=8))
     for nm, op, what in (('epoll_fire', 0, 'wait_and_fire_events: one batch of kernel events'), ('epoll_waitfd', 1, 'wait_for_fd: register, sleep, event / timeout / interrupt'),
                          ('epoll_withdraw', 2, 'wait_for_fd(fd, 0): descriptor withdrawn before close')):
-        J.append(Job(nm, 'C10/h_epoll.cpp', 'harness_epoll', defines=['OP=%d' % op], unwind=12, shims=['libc.c'], timeout=300 if q else 3000, mem_gb=4,
+        J.append(Job(nm, 'C10/h_epoll.cpp', 'harness_epoll', defines=['OP=%d' % op], unwind=4, shims=['libc.c', 'c10_epoll.c'], ir2c=['--stub', '_M_default_appendEm$'], timeout=300 if q else 3000, mem_gb=4,
                      desc='EventEngineEPoll ' + what, bounds='2 descriptors x 2 directions, one step from every consistent registered-interest state'))
     return J
